@@ -29,7 +29,7 @@ ASSUMPTIONS = [
 ]
 FUZZ_RUNS = 40000   # thorough tier: libFuzzer runs per campaign of the coverage-guided stage (vf/fuzz.py)
 BUDGET = {
-    "quick": {"examples": 250, "workers": 8, "time_cap": 70},
+    "quick": {"examples": 350, "workers": 8, "time_cap": 70},
     "thorough": {"examples": 5000, "workers": 14, "time_cap": 900},
 }
 BAD = ["float-comment", "none-in-announce", "surrogate-comment", "surrogate-url", "none-in-url-list", "float-source"]
